@@ -266,3 +266,30 @@ def unsigned_view(dense):
     for t in (numpy.uint8, numpy.uint16, numpy.uint32, numpy.uint64):
         if mx <= numpy.iinfo(t).max:
             return dense.astype(t)
+
+
+# ----------------------------------------------------------------------------- pipelines: a cube object that outlives a change of its dimensions
+def in_place_changes(dims, denses):
+    """Yield (label, apply, new_denses): successive in-place changes of the FIRST index dimension that a cube built earlier over `dims` must
+    follow (a cube holds its dimensions, not a snapshot of them).  apply() performs the change on dims[0]; new_denses is what the dimensions
+    stand for afterwards.  The changes: re-expression under another common value (data unchanged), one whole entry returned to the common
+    value (difference_update), one cell given another value (update)."""
+    ix = dims[0]
+    if len(ix.shape) > 2:
+        return      # the in-place operations are written for one- and two-axis indexes (DESIGN 9: three-axis indexes are sliced, not changed)
+    cur = numpy.array(denses[0], dtype=numpy.int64, copy=True)
+    rest = list(denses[1:])
+    other = next(v for v in (1, 0, 2) if v != ix.common)
+    yield ("shift_common(%d)" % other, (lambda: ix.shift_common(other)), [cur.copy()] + rest)
+    # (evaluated after the caller has applied the previous change)
+    keys = sorted(dict.keys(ix), key=repr)
+    if keys:
+        k = keys[-1]
+        rows = numpy.array(dict.__getitem__(ix, k), dtype=numpy.uint32, copy=True)
+        cur[(rows.astype(numpy.int64),) + tuple(k[1:])] = ix.common
+        yield ("difference_update(%r)" % (k,), (lambda: ix.difference_update({k: rows})), [cur.copy()] + rest)
+    if cur.size:
+        cell = (0,) * cur.ndim
+        nv = (int(cur[cell]) + 1) % 3
+        cur[cell] = nv
+        yield ("update(%r -> %d)" % (cell, nv), (lambda: ix.update({(nv,) + cell[1:]: numpy.array([0], dtype=numpy.uint32)})), [cur.copy()] + rest)
